@@ -78,8 +78,10 @@ public:
           alloc_(rb.alloc_),
           capacity_(rb.capacity_),
           mask_(rb.mask_),
-          data_(alloc_.allocate(capacity_))
+          data_(capacity_ ? alloc_.allocate(capacity_) : nullptr)
     {
+        // a copy of a buffer without storage (default constructed, moved-from,
+        // deallocated) has no storage either, so that allocate() works on it.
         // copy items using existing methods (we cannot just flat copy the array
         // due to item construction).
         for (size_t i = 0; i < rb.size(); ++i)
@@ -101,7 +103,7 @@ public:
             alloc_.deallocate(data_, capacity_);
             alloc_ = rb.alloc_;
             capacity_ = rb.capacity_;
-            data_ = alloc_.allocate(capacity_);
+            data_ = capacity_ ? alloc_.allocate(capacity_) : nullptr;
         }
         // copy over fields
         max_size_ = rb.max_size_;
